@@ -70,13 +70,13 @@ CHECKS = {
 }
 
 NOT_APPLICABLE = {
-    'C05': 'quantifies over arrival schedules and concurrent connect/disconnect; the mechanism (FairQueue::poll_next releasing a parking_lot lock around a checked-out stream, wakers firing on other threads) is outside what Verus (no Pin/Context/Waker/lock-guard specs, &mut model assumes no interference) or Kani (no threads, crashes on parking_lot, HashMap intractable) can express; the per-connection part is discharged under C02',
+    'C05': 'quantifies over arrival schedules and concurrent connect/disconnect; the mechanism (FairQueue::poll_next releasing a parking_lot lock around a checked-out stream, wakers firing on other threads) is outside what Verus (&mut model assumes no interference) or Kani (no threads, crashes on parking_lot, HashMap intractable) can express. Per-call facts that ARE proved, in sequential scope, and reported under C14/C02: poll_next labels an item with the key of the stream it came from, puts every checked-out stream back unless it ended, invents no key; the per-connection decoder yields each complete message exactly once, whole and in order',
     'C06': 'liveness / fairness over adversarial schedules; wake-ups go through &Waker (no state a per-call contract can see)',
     'C11': 'the prefix filter lives in PubSocket::send behind an scc cursor (OccupiedEntry with user Deref/DerefMut, next_async) and Pin<Box<FramedWrite>>::as_mut().try_send: Verus parses none of these and Kani cannot run scc, so "delivered iff a subscription is a prefix" cannot be decided. (The bookkeeping half - SUBSCRIBE appends, CANCEL removes the first equal topic, anything else changes nothing, only the sender\'s entry changes - IS proved for PUB and XPUB in unit pubsub and reported under C03.)',
     'C12': 'about back-pressure schedules and the Sink polling protocol on Pin<&mut Self>; no per-call contract expresses it',
     'C13': 'about races between subscribe and background accepts; code mutates through a lock guard DerefMut and iterator adapters outside both tools',
     'C15': 'futures::select! expansion and scheduling',
-    'C16': 'fault x schedule sequences, Drop and descriptor release, fair-queue internals',
+    'C16': 'quantifies over fault x schedule sequences and is about resource release (Drop, descriptors), neither expressible as a per-call contract. Per-call facts that ARE proved under C09/C10/C14: ROUTER/PULL/REP recv forget exactly the peer whose connection failed and touch no other entry, round-robin send removes a peer whose write failed, the fair queue drops a stream only when it has ended',
     'C17': 'OS listeners, runtime task termination, Drop',
     'C18': 'observable behaviour is the OS listener\'s and the accept task\'s; the three-line HashMap bookkeeping does not decide the statement',
     'C19': 'the accepted language is defined by two regex patterns and std IPv4/IPv6 parsers; no contracts for a regex engine within reach and Kani cannot execute it',
